@@ -60,7 +60,6 @@ var stringKeyPool = []string{"a", "A", "b", "ab", "AB", "a b", "1", "01", "10", 
 
 type caseData struct {
 	conn     connSpec
-	connIdx  int
 	items    []mItem
 	env      *caseEnv
 	batching bool
@@ -82,7 +81,7 @@ func genAttr(r *rand.Rand, n int) Attr {
 	return a
 }
 
-func genList(r *rand.Rand, c connSpec) ([]mItem, *caseEnv, map[string]interface{}) {
+func genList(r *rand.Rand, c connSpec) ([]mItem, *caseEnv) {
 	var n int
 	switch x := r.Intn(20); {
 	case x == 0:
@@ -96,7 +95,7 @@ func genList(r *rand.Rand, c connSpec) ([]mItem, *caseEnv, map[string]interface{
 	}
 	env := &caseEnv{}
 	items := make([]mItem, 0, n)
-	idJSON := map[string]interface{}{}
+	usedS := map[string]bool{}
 	if c.stringKey {
 		perm := r.Perm(len(stringKeyPool))
 		for i := 0; i < n; i++ {
@@ -106,13 +105,13 @@ func genList(r *rand.Rand, c connSpec) ([]mItem, *caseEnv, map[string]interface{
 			} else {
 				id = fmt.Sprintf("g%d-%s", i, word(r, 3))
 			}
-			if _, dup := idJSON[id]; dup {
+			if usedS[id] {
 				id = fmt.Sprintf("u%d", i)
 			}
+			usedS[id] = true
 			a := genAttr(r, n)
 			env.itemsS = append(env.itemsS, ItemS{Id: id, N: a.N, S: a.S, F: a.F, U: a.U, T0: a.T[0], T1: a.T[1], T2: a.T[2]})
 			items = append(items, mItem{id: id, attr: a})
-			idJSON[id] = id
 		}
 	} else {
 		used := map[int64]bool{}
@@ -136,12 +135,11 @@ func genList(r *rand.Rand, c connSpec) ([]mItem, *caseEnv, map[string]interface{
 			env.itemsI = append(env.itemsI, ItemI{Id: id, N: a.N, S: a.S, F: a.F, U: a.U, T0: a.T[0], T1: a.T[1], T2: a.T[2]})
 			ids := strconv.FormatInt(id, 10)
 			items = append(items, mItem{id: ids, attr: a})
-			idJSON[ids] = json.Number(ids)
 		}
 	}
 	env.filterBatchFlag = r.Intn(2) == 0
 	env.sortBatchFlag = r.Intn(2) == 0
-	return items, env, idJSON
+	return items, env
 }
 
 func genFilterText(r *rand.Rand) string {
@@ -827,9 +825,8 @@ func runCase(run *vlib.Run, ex *executor, i int) {
 	r := run.Rand("case", i)
 	ci := r.Intn(len(conns))
 	conn := conns[ci]
-	items, env, idJSON := genList(r, conn)
-	_ = idJSON
-	cd := &caseData{conn: conn, connIdx: ci, items: items, env: env, batching: r.Intn(2) == 0}
+	items, env := genList(r, conn)
+	cd := &caseData{conn: conn, items: items, env: env, batching: r.Intn(2) == 0}
 
 	c := &checker{run: run, ex: ex, i: i, cd: cd}
 
@@ -866,7 +863,7 @@ func runCase(run *vlib.Run, ex *executor, i int) {
 		run.Violation(i, "", c.witness("plain listing: start/end cursor are not those of the first/last edge", q, vars, map[string]interface{}{"response": vlib.Trunc(obs.raw, 4000)}))
 	}
 
-	// Two views per list: the generated one and (sometimes) the bare list.
+	// One view per list, sometimes a second one.
 	views := []view{genView(r, conn)}
 	if r.Intn(4) == 0 {
 		views = append(views, genView(r, conn))
